@@ -127,12 +127,19 @@ theorem call_restores_any_depth (fuel : Nat) (prog : Program) (pipe : String) (f
     call_step_restores fr _ hbody (groupsCallee fuel prog pipe) s s₁ c hb
   exact ⟨h1, h2, h3, h4⟩
 
-/-- `runStep` is the decorator stack around exactly that `invokeStep` (for every step kind). -/
+/-- `runStep` is the decorator stack around exactly that `invokeStep` (for every step kind), after the
+    up-front formatting of the step's `description` (if it has one) for the notification: when that
+    raises nothing (`describe … = none`, e.g. no description: `describe_none`) the step is the decorator
+    stack; when it raises, the step ends with that error before anything else of it is evaluated.
+    (The hypothesis on `describe` is new: the model now covers `description`.) -/
 theorem runStep_is_decorated_invoke (fuel : Nat) (prog : Program) (pipe : String) (d : StepDef) (kind : StepKind)
     (s : St) (hk : stepInit d = .ok kind) :
-    runStep (fuel + 1) prog pipe d s =
-      runStepWith d (stepBody fuel prog kind) (groupsCallee fuel prog pipe) fuel s :=
-  runStep_eq fuel prog pipe d kind s hk
+    (describe d (setIn d s) = none →
+      runStep (fuel + 1) prog pipe d s =
+        runStepWith d (stepBody fuel prog kind) (groupsCallee fuel prog pipe) fuel s) ∧
+    (∀ x, describe d (setIn d s) = some x → runStep (fuel + 1) prog pipe d s = raiseExc (setIn d s) x) :=
+  ⟨fun hq => runStep_eq fuel prog pipe d kind s hk hq,
+   fun x hq => by rw [runStep_eq_described fuel prog pipe d kind s hk, runStepDescribed_fails _ _ _ _ _ x hq]⟩
 
 /-- **The write-back touches nothing else**: every context key other than the three counters and
     the call key, and every other component of the state (probe trace, pipeline stack, sleeps,
@@ -197,13 +204,14 @@ theorem call_then_next_step (fuel : Nat) (prog : Program) (pipe : String) (d : S
     config written back (and the step's `in` arguments removed). -/
 theorem plain_call_step_resumes (fuel : Nat) (prog : Program) (pipe : String) (d : StepDef) (rest : List StepDef)
     (s s₁ s₂ : St) (c : CofCfg) (hk : stepInit d = .ok .call) (hp : Plain d)
+    (hq : describe d (setIn d s) = none)    -- new: the description (if any) formats; see `runStep_eq`
     (hb : cofStep "call" true (setIn d s) = (s₁, .call c))
     (hc : groupsCallee fuel prog pipe c s₁ = (s₂, .ok)) :
     runStep (fuel + 1) prog pipe d s = (unsetIn d (resetCounters {} c s₂), .ok) ∧
     runSteps (fuel + 2) prog pipe (d :: rest) s =
       runSteps (fuel + 1) prog pipe rest (unsetIn d (resetCounters {} c s₂)) := by
   have h1 : runStep (fuel + 1) prog pipe d s = (unsetIn d (resetCounters {} c s₂), .ok) := by
-    rw [runStep_eq fuel prog pipe d .call s hk, runStepWith_plain d _ _ fuel s hp]
+    rw [runStep_eq fuel prog pipe d .call s hk hq, runStepWith_plain d _ _ fuel s hp]
     show (match swallowWrap d (invokeStep {} (cofStep "call" true) (groupsCallee fuel prog pipe) (setIn d s)) with
       | (s1, Res.ok) => (unsetIn d s1, Res.ok)
       | other => other) = _
@@ -567,30 +575,30 @@ def probe (tag : String) (extra : List (Val × Val) := []) : StepDef :=
     foreach of its own, which clears the whole context; then a probe. `sw`: a switch whose second
     case is the first true one and whose target jumps away in mid-group. -/
 def demoProg : Program := ⟨[{ name := "main", groups := [
-  ("steps", some [
+  ("steps", .steps [
     { name := some "pypyr.steps.call", inArgs := some [("call", .str "sg")],
       foreach := some (.list [.str "a", .str "b"]),
       while_ := some { max := some (.int 2) },
       retry := some { max := some (.int 2) } },
     probe "after"]),
-  ("sg", some [
+  ("sg", .steps [
     probe "in" [(.str "set", .dict [(.str "i", .str "X"), (.str "whileCounter", .int 99),
                                      (.str "retryCounter", .int 77)]),
                 (.str "del", .list [.str "call"])],
     { name := some "pypyr.steps.call", inArgs := some [("call", .str "sg2")], foreach := some (.list [.int 7]) },
     probe "back"]),
-  ("sg2", some [probe "deep" [(.str "clearAll", .bool true)]]),
-  ("sw", some [
+  ("sg2", .steps [probe "deep" [(.str "clearAll", .bool true)]]),
+  ("sw", .steps [
     { name := some "pypyr.steps.switch", inArgs := some [("switch", .list [
         swCase (.bool false) (.str "ga"), swCase (.bool true) (.str "gb"), swCase (.bool true) (.str "gc"),
         .dict [(.str "default", .str "gd")]])] },
     probe "after-switch"]),
-  ("ga", some [probe "A"]),
-  ("gb", some [probe "B1", { name := some "pypyr.steps.jump", inArgs := some [("jump", .str "gj")] }, probe "B2"]),
-  ("gc", some [probe "C"]),
-  ("gd", some [probe "D"]),
-  ("gj", some [probe "J"]),
-  ("next", some [probe "N"])] }]⟩
+  ("ga", .steps [probe "A"]),
+  ("gb", .steps [probe "B1", { name := some "pypyr.steps.jump", inArgs := some [("jump", .str "gj")] }, probe "B2"]),
+  ("gc", .steps [probe "C"]),
+  ("gd", .steps [probe "D"]),
+  ("gj", .steps [probe "J"]),
+  ("next", .steps [probe "N"])] }]⟩
 
 /-- the callee is entered once per (while, foreach) iteration with the caller's counters, two
     levels of callee clobber them, and after each return — and after the step — they are the
@@ -638,8 +646,9 @@ example :
     let d : StepDef := { name := some "pypyr.steps.call", inArgs := some [("call", .str "sg2")] }
     let s : St := { stack := ["main"] }
     let c : CofCfg := { groups := ["sg2"], success := none, failure := none, key := "call", original := .str "sg2" }
-    stepInit d = .ok .call ∧ Plain d ∧ cofStep "call" true (setIn d s) = (setIn d s, .call c) ∧
+    stepInit d = .ok .call ∧ Plain d ∧ describe d (setIn d s) = none ∧
+    cofStep "call" true (setIn d s) = (setIn d s, .call c) ∧
     (groupsCallee 20 demoProg "main" c (setIn d s)).2 = .ok := by
-  refine ⟨by decide +kernel, ⟨rfl, rfl, rfl, rfl, rfl⟩, by decide +kernel, by decide +kernel⟩
+  refine ⟨by decide +kernel, ⟨rfl, rfl, rfl, rfl, rfl⟩, rfl, by decide +kernel, by decide +kernel⟩
 
 end Pypyr.C03
